@@ -352,6 +352,12 @@ func (e *Env) evalIdent(name string) Val {
 		return spec(u.top(e.cur))
 	case "spawned":
 		return spec(u.get(e.cur, "G:spawned", SInt))
+	case "spawnedFn":
+		// the function value of the most recent go statement (-1: a function or closure literal)
+		return spec(u.get(e.cur, "G:spawnedFn", SInt))
+	case "spawnedArg0":
+		// the first argument of the most recent go statement when it is a reference (else 0)
+		return spec(u.get(e.cur, "G:spawnedArg0", SInt))
 	}
 	// named local of the frame (loop invariants, ghost updates)
 	if e.fr != nil {
@@ -1105,7 +1111,7 @@ func (e *Env) evalLoc(x Expr) []loc {
 			return []loc{{key: "G:" + x.Name, sort: s, whole: true, text: x.Name}}
 		}
 		if x.Name == "spawned" {
-			return []loc{{key: "G:spawned", sort: SInt, whole: true, text: x.Name}}
+			return []loc{{key: "G:spawned", sort: SInt, whole: true, text: x.Name}, {key: "G:spawnedFn", sort: SInt, whole: true, text: x.Name}, {key: "G:spawnedArg0", sort: SInt, whole: true, text: x.Name}}
 		}
 		if x.Name == "recvdAll" {
 			// receives on any channel (used where the channel is not nameable, e.g. ctx.Done())
